@@ -116,6 +116,24 @@ CHECKS = {
                   "with a bijection invariant; process enumeration",
         engine="hist+grid",
     ),
+    "C16": dict(
+        category="model_checking",
+        text="Explicit-state BFS over sequences of save(curve, fit, user) "
+             "(18+9 ops, depth 2/3) on real HDF5 containers against a dict "
+             "reference: canonical byte-level dump per state, full reload "
+             "with column/setting/parameter/user/feature comparison. Fault "
+             "enumeration: from every pre-state up to depth 1/2, for every "
+             "op, an OSError is raised at each of the W (~30-41) h5py write "
+             "calls of the save; afterwards all earlier ratings must load "
+             "unchanged.",
+        design_ref="DESIGN.md §2 C16",
+        note="Faults are exceptions at h5py call boundaries with a normal "
+             "close; torn pages inside libhdf5 are out of scope.",
+        technique="explicit-state BFS over save histories + exhaustive "
+                  "fault-point enumeration inside every save, on the "
+                  "implementation",
+        engine="hist+fault",
+    ),
 }
 
 NA_REASON = "check not built yet in this session (under construction; see DESIGN.md §9 work order)"
@@ -152,7 +170,7 @@ def build():
         "engines": [
             {"name": "enum", "path": "mc/props/c14.py", "serves_properties": ["C14"],
              "kind_free_text": "complete enumeration of a finite input domain on the implementation"},
-            {"name": "hist", "path": "mc/hist.py", "serves_properties": ["C03", "C06", "C09", "C10", "C12"],
+            {"name": "hist", "path": "mc/hist.py", "serves_properties": ["C03", "C06", "C09", "C10", "C12", "C16"],
              "kind_free_text": "explicit-state breadth-first search over operation histories on real objects (replay from scratch, canonical state hash, per-state and per-transition oracles, merge-soundness and determinism self-checks)"},
             {"name": "store", "path": "mc/props/c03_store.py", "serves_properties": ["C03"],
              "kind_free_text": "closure (fixpoint) search of small dictionary-like stores against a reference model"},
